@@ -6,18 +6,26 @@ from pathlib import Path
 VERIF = Path(__file__).resolve().parent.parent
 PY = "/venv/bin/python"
 
-# property -> (design section, level text, level note, technique)
-CLAIMED = {
-    "C20": ("7 C20",
-            "Lean 4 refinement proof: for every file, window, buffer size, cache limit, eviction policy and "
-            "finite operation sequence the model of BufferedReader returns what an in-memory stream over the "
-            "window returns (refines_slice + corollaries); the hand-written model is tied to the code on every "
-            "run by a differential correspondence check over seeded operation sequences, and an independent "
-            "slice-stream oracle evaluates the property text on the real class.",
-            "Trusted: Lean kernel (+propext, Classical.choice, Quot.sound), the correspondence harness and "
-            "compiled driver, io.BytesIO as the file, model of seek/read as drop/take. Window explicit and inside the file.",
-            "Lean 4 proof (induction over operation list, cache-coherence invariant) + model/implementation correspondence"),
-}
+import importlib
+import sys
+sys.dont_write_bytecode = True
+sys.path.insert(0, str(Path(__file__).resolve().parent))
+
+
+def claimed():
+    """property -> (design section, level text, level note, technique), read from
+    each harness/props/cNN.py that sets CLAIM = True and MANIFEST_ENTRY = {...}"""
+    out = {}
+    for f in sorted((VERIF / "harness" / "props").glob("c[0-9]*.py")):
+        mod = importlib.import_module(f"props.{f.stem}")
+        if not getattr(mod, "CLAIM", False):
+            continue
+        e = mod.MANIFEST_ENTRY
+        out[mod.PROP] = (e["design_ref"], e["level_text"], e["level_note"], e["technique"])
+    return out
+
+
+CLAIMED = claimed()
 
 PENDING_REASON = ("check not built yet in this round (the technique applies, see DESIGN.md section 7); "
                   "listed here only because it is not claimed at this commit")
